@@ -42,6 +42,8 @@ THEOREMS: list[str] = [
     "IrVerif.Passes.C05_lift_sub_inits",
     "IrVerif.Passes.C05_toposort",
     "IrVerif.Passes.C05_cse_skips",
+    "IrVerif.Passes.C05_pass_valid",
+    "IrVerif.Passes.C05_compose_valid",
     "IrVerif.Inline.C05_inline_partial",
     "IrVerif.Inline.C05_inline_nested_partial",
     "IrVerif.Inline.C05_inline",
@@ -563,6 +565,10 @@ def corr_flush(part) -> None:
             part.count("corr_chain_ok=" + str(out.get("chain_ok")))
         if not out.get("valid_after"):
             part.count("corr_valid_after=False")
+            if out.get("valid"):
+                # C05_pass_valid: a modelled pass returns a valid model when it is given one
+                part.disagree(f"{kind} {where}: the model of the pass returned an invalid model from a valid one "
+                              f"(contradicts C05_pass_valid)", case_id, None, None)
         got = canon(out["model"])
         if got != expect:
             part.disagree(
@@ -3335,6 +3341,83 @@ def _fn_edge_models() -> list[tuple[str, bytes]]:
 _FN_EDGE_CORR_ONLY = {"passthrough_short_call", "passthrough_short_nested", "identity_function"}
 
 
+def _identity_function_model() -> bytes:
+    """D301: a model-local function ("", "Identity") that returns its input, called from the main graph"""
+    vi = oh.make_tensor_value_info
+    imp = [oh.make_opsetid("", 18)]
+    f_identity = oh.make_function("", "Identity", ["a"], ["a"], [], imp)
+    g = oh.make_graph([oh.make_node("Identity", ["x"], ["y"])], "g", [vi("x", _F, [3])], [vi("y", _F, [3])])
+    return oh.make_model(g, opset_imports=imp, ir_version=10, functions=[f_identity]).SerializeToString()
+
+
+def _finding_acknowledged(fid: str) -> bool:
+    """a finding that the maintainer has entered in known_findings.json (`known` or `fixed`)"""
+    import json as _json
+
+    from harness.common import KNOWN_FILE
+
+    try:
+        with open(KNOWN_FILE) as f:
+            k = _json.load(f)
+    except Exception:  # noqa: BLE001
+        return False
+    return any(e.get("id") == fid for sec in ("known", "fixed") for e in k.get(sec, []))
+
+
+def _identity_function_stream(part) -> None:
+    """D301: InlinePass forwards a returned function input through a standard Identity node; when the model defines
+    a local function of that identifier which returns its input, the forwarding node is itself a call that is
+    inlined into a forwarding node, without end.  The pass runs under an alarm (main process, main thread).
+    Termination is part of the property (a pass that does not return preserves nothing); the hang is a failure once
+    the maintainer has entered D301 in known_findings.json, before that it is counted and printed only."""
+    import signal
+    import threading
+
+    import onnx_ir as ir
+    from onnx_ir.passes import common as P
+
+    if threading.current_thread() is not threading.main_thread():
+        part.count("identity_function_stream:skipped_not_main_thread")
+        return
+    raw = _identity_function_model()
+    try:
+        onnx.checker.check_model(_parse(raw))
+    except Exception:  # noqa: BLE001 - a corner the checker rejects is not a case
+        part.count("identity_function_stream:checker_rejects")
+        return
+    model = ir.serde.deserialize_model(_parse(raw))
+
+    def _alarm(signum, frame):
+        raise TimeoutError("InlinePass did not return within 5 s")
+
+    old = signal.signal(signal.SIGALRM, _alarm)
+    signal.setitimer(signal.ITIMER_REAL, 5.0)
+    try:
+        try:
+            P.InlinePass()(model)
+            outcome = "returned"
+        except TimeoutError:
+            outcome = "timeout"
+        except Exception as e:  # noqa: BLE001
+            outcome = "raised:" + type(e).__name__ + ("<" + type(e.__cause__).__name__ + ">" if e.__cause__ else "")
+    finally:
+        signal.setitimer(signal.ITIMER_REAL, 0)
+        signal.signal(signal.SIGALRM, old)
+    del model
+    part.count("identity_function_stream:" + outcome)
+    if outcome == "timeout":
+        fail = {"signature": "nontermination:InlinePass:function-named-identity",
+                "what": "InlinePass does not return on a checker-valid model that defines the local function ::Identity "
+                        "returning its input: the Identity node that forwards the returned input is inlined as a call "
+                        "to that function, again and again (D301, proposed_fixes/D301.diff)",
+                "case": {"model_b64": base64.b64encode(raw).decode(), "seq": ["InlinePass"], "kind": "identity-function"}}
+        if _finding_acknowledged("D301"):
+            part["failures"].append(fail)
+        else:
+            part.count("finding_not_yet_acknowledged:D301:" + fail["signature"])
+            print("NOTE: property=C05 D301 [" + fail["signature"] + "] " + fail["what"], flush=True)
+
+
 def _fn_edge_stream(part) -> None:
     import onnx_ir as ir
 
@@ -3342,7 +3425,11 @@ def _fn_edge_stream(part) -> None:
             ["InlinePass", "RemoveUnusedFunctionsPass", "RemoveUnusedOpsetsPass"],
             ["InlinePass(criteria=even)", "RemoveUnusedFunctionsPass", "InlinePass"]]
     state: dict = {}
+    skip = set(filter(None, os.environ.get("C05_SKIP_EDGE", "").split(",")))  # development only (mutation runs)
     for tag, raw in _fn_edge_models():
+        if tag in skip:
+            part.count("fn_edge_skipped_by_env:" + tag)
+            continue
         part.count("fn_edge_models")
         part.count("fn_edge:" + tag)
         proto = _parse(raw)
@@ -3456,6 +3543,7 @@ def run(ctx: Ctx) -> None:
                    list(case["seq"]))
     _stochastic_twins_stream(part)
     _fn_edge_stream(part)
+    _identity_function_stream(part)
     corr_flush(part)
     ctx.merge(part)
     n = ctx.pick(320, 6400)
@@ -3477,6 +3565,8 @@ def replay(ctx: Ctx, obj: dict) -> None:
         _replay_instance_state(part, case)
     elif case.get("kind") == "stochastic-twins":
         _stochastic_twins_stream(part)
+    elif case.get("kind") == "identity-function":
+        _identity_function_stream(part)
     elif case.get("kind") == "chain-vs-stepwise":
         raw = base64.b64decode(case["model_b64"])
         if _apply_stepwise(case["pass"], raw) != _apply_bytes(_make_instance(case["pass"]), raw):
